@@ -238,6 +238,7 @@ public:
             if (ck == CK_IntegralCast || ck == CK_IntegralToBoolean || ck == CK_IntegralToFloating ||
                 ck == CK_FloatingToIntegral || ck == CK_FloatingCast) {
                 J.object([&] {
+                    if (pendingDefArg) { J.attribute("defarg", 1); pendingDefArg = false; }
                     J.attribute("k", "cast");
                     J.attribute("imp", 1);
                     J.attribute("t", canonStr(E->getType()));
@@ -661,7 +662,7 @@ public:
     // access kind of an lvalue expression, from its parent context
     const char* accessKind(const Expr* E) {
         const Stmt* cur = E;
-        for (int guard = 0; guard < 8; guard++) {
+        for (int guard = 0; guard < 12; guard++) {
             auto parents = C.AC->getParents(*cur);
             if (parents.empty()) return "ref";
             const Stmt* P = parents[0].get<Stmt>();
@@ -688,11 +689,29 @@ public:
                 return "ref";
             }
             if (auto* M = dyn_cast<MemberExpr>(P)) {
-                // field of a field: access kind determined by the outer member
-                (void)M;
-                return "base";
+                // field of a field (a.b): the kind of the outer access decides; through a pointer
+                // member (p->b) the pointer itself is only read
+                if (M->isArrow()) return "r";
+                if (auto* MD = dyn_cast<CXXMethodDecl>(M->getMemberDecl())) {
+                    // a.method(...): element accessors hand out a reference whose use decides
+                    std::string nm = MD->getNameAsString();
+                    bool accessor = MD->getReturnType()->isLValueReferenceType() &&
+                                    (nm == "operator[]" || nm == "at" || nm == "front" || nm == "back");
+                    if (accessor) {
+                        auto pp = C.AC->getParents(*P);
+                        if (!pp.empty() && pp[0].get<Stmt>()) { cur = pp[0].get<Stmt>(); continue; }
+                    }
+                    return MD->isConst() ? "cmcall" : "mcall";
+                }
+                cur = P; continue;
             }
-            if (isa<ArraySubscriptExpr>(P)) return "base";
+            if (auto* AS = dyn_cast<ArraySubscriptExpr>(P)) {
+                if (AS->getIdx()->IgnoreParenImpCasts() == cast<Expr>(cur)->IgnoreParenImpCasts()) return "r";
+                // element of an array member: the kind of the element access decides; indexing
+                // through a pointer only reads the pointer
+                if (cast<Expr>(cur)->getType()->isPointerType()) return "r";
+                cur = P; continue;
+            }
             if (auto* MC = dyn_cast<CXXMemberCallExpr>(P)) {
                 if (MC->getImplicitObjectArgument() &&
                     MC->getImplicitObjectArgument()->IgnoreParenImpCasts() == cast<Expr>(cur)->IgnoreParenImpCasts()) {
@@ -702,6 +721,11 @@ public:
                 return argKind(MC->getDirectCallee(), MC, cast<Expr>(cur));
             }
             if (auto* OC = dyn_cast<CXXOperatorCallExpr>(P)) {
+                if (OC->getNumArgs() > 0 && OC->getArg(0)->IgnoreParenImpCasts() == cast<Expr>(cur)->IgnoreParenImpCasts() &&
+                    OC->getOperator() == OO_Subscript && OC->getType()->isLValueReferenceType() == false && OC->isLValue()) {
+                    // container[i] handing out a reference to an element: the use of the element decides
+                    cur = P; continue;
+                }
                 if (OC->getNumArgs() > 0 && OC->getArg(0)->IgnoreParenImpCasts() == cast<Expr>(cur)->IgnoreParenImpCasts()) {
                     if (auto* FD = OC->getDirectCallee())
                         if (auto* MD = dyn_cast<CXXMethodDecl>(FD)) return MD->isConst() ? "cmcall" : "mcall";
